@@ -5,6 +5,9 @@ HERE = os.path.dirname(os.path.dirname(os.path.abspath(__file__)))
 ALL = ["C%02d" % i for i in range(1, 21)]
 HYD_NOTE = "Trusted: TLC; Dec.tla exact decimal arithmetic (self-tested by setup); recorded floats are logged at their shortest round-trip decimal; tolerances derived from the solver criterion max|residual| < 1e-6 with factor 2; non-converged runs are counted, not asserted."
 CLAIMED = {
+ "C20": dict(cat="model_checking", tech="exact rational transcription of the metric formulas in TLA+ (Metrics.tla); recorded calls of wntr.metrics on seeded models / tables validated by TLC; expected_demand cross-checked with the DD simulator",
+   text="Metrics.tla defines expected and average expected demand (mean over lcm(24 h, all pattern periods) with pattern_start), population, water service availability, Todini, MRI (both modes), tank capacity, pump power/energy/cost, annual network cost (nearest-entry table lookups, maximum pump power) and GHG as exact rational formulas; for seeded models with pattern lengths that do not divide a day, several categories, synthetic result tables and sizes on both sides of every table bucket boundary the values returned by wntr.metrics are recomputed and compared by TLC (1e-9 relative); expected_demand is also compared with the demand WNTRSimulator delivers.",
+   note="Trusted: TLC, Dec.tla. Head pumps in cost cases use two-point curves (rational optimum). Known finding (open): annual_network_cost uses the efficiency in percent as a fraction.", ref="DESIGN.md section 5 C20"),
  "C19": dict(cat="model_checking", tech="TLA+ contracts of split/break/skeletonize over recorded before/after projections (Morph.tla, exact rational geometry) decided by TLC; split hydraulics compared by TLC (Agree.tla)",
    text="Morph.tla computes, from the pipe before the operation and the parameters, the lengths of both halves, the elevation (reservoir rule) and the coordinates of the new junction along the polyline in exact rationals, and states connectivity, attribute inheritance, no check valve on the new pipe, every other element unchanged, input untouched; TLC checks it on a grid of fractions {0,1/4,1/3,1/2,1} x either end x vertices x CV/closed/minor loss x end node types, and compares the simulated rows of the rest of the network before/after a split. For skeletonize on random networks TLC checks retention of tanks/reservoirs/pumps/valves/control elements, equality of total demand at every pattern time and that the map partitions the original nodes over the retained ones.",
    note="Trusted: TLC, Dec.tla. Polylines are axis-parallel with integer coordinates. Known finding (open): split duplicates the minor loss (documented behaviour) and therefore changes hydraulics.", ref="DESIGN.md section 5 C19"),
